@@ -645,6 +645,55 @@ def check_layering(ctx, rid):
         elif tshort == own:
             dn += 1
     r.floor(dn, 40, 'delegating namesakes')
+    # namesakes and direction words, crate-wide: a small `&self` function (no other argument)
+    #  (a) named like a field of a type it reads, reads that field (StreamRef::is_pending_open -> Stream.is_pending_open);
+    #  (b) with one direction word in its name (send/recv, local/remote) touches nothing that carries only the opposite word
+    #      (Streams::current_max_send_streams -> Counts::max_send_streams; OpaqueStreamRef::available_recv_capacity -> recv_flow).
+    #      In `State`, send is the `local` half and recv the `remote` half.
+    OPP = {'send': 'recv', 'recv': 'send', 'local': 'remote', 'remote': 'local'}
+    ALIAS = {'send': 'local', 'recv': 'remote', 'local': 'send', 'remote': 'recv'}
+
+    def words(x):
+        return set(w for w in OPP if w in x)
+    ns = dw = 0
+    for name, f in sorted(F.fns.items()):
+        if not name.startswith(H2) or 'closure' in name or '::tests::' in name or f.argc != 1 or len([b for b in f.blocks if not b['cu']]) > 14:
+            continue
+        own = name.rsplit('::', 1)[-1]
+        touched = set()
+        for bi, si, pl, rv, ln in f.stmts():
+            for (o, fl) in core.place_fields(pl):
+                touched.add(('f', o, fl))
+            if rv[0] not in ('setdiscr', 'other'):
+                for y in walk(f.expr_of_rvalue(rv)):
+                    if y[0] == 'field':
+                        touched.add(('f', y[2], y[3]))
+        for bi, t in f.calls():
+            if t.get('exp') and any(k in t['exp'] for k in ('trace', 'debug', 'event', 'span')):
+                continue
+            if t['fn'].startswith(H2):
+                touched.add(('c', t['fn'].rpartition('::')[0], t['fn'].rsplit('::', 1)[-1]))
+            for a in t['a']:
+                for y in walk(f.expr_of_op(a)):
+                    if y[0] == 'field':
+                        touched.add(('f', y[2], y[3]))
+        for (k, o, fl) in sorted(touched):
+            a = F.adts.get(o) if k == 'f' else None
+            if a and own in [y[0] for v in a['variants'] for y in v['fields']]:
+                ns += 1
+                r.check(('f', o, own) in touched, 'namesake|%s' % name, f.file, '%s reads %s.%s' % (name, o.split('::')[-1], own if ('f', o, own) in touched else fl))
+                break
+        w = words(own)
+        if len(w) == 1:
+            w = next(iter(w))
+            accept = {w, ALIAS[w]} if '::state::State::' in name else {w}
+            dirs = [(k, o, n_) for (k, o, n_) in touched if words(n_)]
+            if dirs:
+                dw += 1
+                wrong = [n_ for (k, o, n_) in dirs if not (words(n_) & accept)]
+                r.check(not wrong, 'direction|%s' % name, f.file, '%s (%s side) touches %s' % (name, w, sorted(wrong) if wrong else 'only its own side'))
+    r.floor(ns, 38, 'namesake accessors')
+    r.floor(dw, 28, 'direction-word accessors')
     # Stream's own send-side helpers use send_flow only
     for fn in ('assign_capacity', 'send_data', 'capacity', 'notify_capacity'):
         f = F.fn(ST + '::' + fn)
@@ -680,4 +729,40 @@ def check_layering(ctx, rid):
                     if y[0] == 'field' and y[2] == ST and y[3].endswith('_task'):
                         touched.add(y[3])
         r.check(touched == {field}, 'task|%s' % fn, f.file, 'Stream::%s touches %s' % (fn, sorted(touched)))
+    return r
+
+
+def check_stream_new(ctx, rid):
+    """Stream::new wires the initial windows to the right flow: the FlowControl credited with the `init_send_window`
+    argument is the one stored in `send_flow`, the one credited (and assigned) with `init_recv_window` is `recv_flow`."""
+    r = ctx.rule(rid, 'WHO', 'Stream::new: the flow credited with init_send_window becomes send_flow, the flow credited with init_recv_window becomes recv_flow')
+    F = ctx.facts
+    ST = 'proto::streams::stream::Stream'
+    f = r.fn(ST + '::new')
+    if not f:
+        return r
+    init = {}
+    for bi, si, pl, rv, ln in f.stmts():
+        if rv[0] == 'aggr' and rv[1] == 'adt' and rv[2] == ST:
+            names = [y[0] for y in F.adts[ST]['variants'][0]['fields']]
+            for nm, o in zip(names, rv[3]):
+                if nm in ('send_flow', 'recv_flow'):
+                    init[nm] = strip(f.expr_of_op(o))
+    r.check(set(init) == {'send_flow', 'recv_flow'} and init.get('send_flow') != init.get('recv_flow'), 'stream-new|flows-distinct', f.file, 'send_flow and recv_flow are initialised from two distinct FlowControl values')
+    n = 0
+    for bi, t in f.calls(lambda t: t['fn'].startswith('proto::streams::flow_control::FlowControl::') and t['fn'].rsplit('::', 1)[-1] in ('inc_window', 'assign_capacity')):
+        if len(t['a']) != 2:
+            continue
+        recv = strip(f.expr_of_op(t['a'][0]))
+        if recv[0] == 'ref':
+            recv = strip(recv[1])
+        amt = strip(f.expr_of_op(t['a'][1]))
+        which = {('arg', 2): 'send_flow', ('arg', 3): 'recv_flow'}.get(amt)
+        short = t['fn'].rsplit('::', 1)[-1]
+        if which is None:
+            r.bad('stream-new|%s|amount' % short, f.loc(bi), 'Stream::new credits a flow with %s, not with one of its window arguments' % (amt,))
+            continue
+        n += 1
+        r.check(init.get(which) == recv, 'stream-new|%s|%s' % (short, which), f.loc(bi), 'Stream::new: %s(%s) is applied to the value stored as %s' % (short, 'init_send_window' if which == 'send_flow' else 'init_recv_window', which))
+    r.floor(n, 3, 'window initialisations in Stream::new')
     return r
